@@ -35,6 +35,7 @@ type ProcSpec struct {
 	Deregister bool
 	FaultAt    int // -1 none
 	FaultKind  string
+	FaultAtUp  int // "abort": ordinal of the uplink message left unread
 }
 
 type ProcUE struct {
@@ -92,13 +93,19 @@ func ProcChildMain() int {
 			syscall.Close(mine)
 		}
 	}
-	amf := refamf.New(sp.Cfg.AMFConfig(), ch, refamf.Fault{At: sp.FaultAt, Kind: sp.FaultKind}, func(b []byte) error { _, e := syscall.Write(mine, b); return e }, closeMine)
+	amf := refamf.New(sp.Cfg.AMFConfig(), ch, refamf.Fault{At: sp.FaultAt, Kind: sp.FaultKind, AtUplink: sp.FaultAtUp}, func(b []byte) error { _, e := syscall.Write(mine, b); return e }, closeMine)
 	done := make(chan struct{})
 	go func() {
 		defer close(done)
 		defer reallyClose()
 		buf := make([]byte, 1<<16)
 		for {
+			if amf.AbortDue() {
+				// wait until the request is in the receive queue, then leave without reading it: closing a socket with unread
+				// data resets the association (ECONNRESET at the peer, not end-of-file)
+				syscall.Recvfrom(mine, buf[:1], syscall.MSG_PEEK)
+				return
+			}
 			n, err := syscall.Read(mine, buf)
 			if err != nil || n <= 0 {
 				return
